@@ -31,7 +31,7 @@ def showBalances (l : Ledger) : String :=
     s!"{tag}:{t.2.1}:{t.2.2}")
 
 /-- ops:  close <height> <item>…      → balances (sorted)
-          claim <idx> <height> <net>  | peer <idx> <height> | block <height>   → balances
+          claim <idx> <height> <net>  | peer <idx> <height> | block <height> [<scenario tag>]   → balances
           totals                      → `<balances owned> <spendable> <fees> <lost> <entitlement>` -/
 def c07close : Drv where
   σ := Ledger
@@ -45,6 +45,7 @@ def c07close : Drv where
     | ["claim", i, h, net] => let l' := step l (.claim (nat! i) (nat! h) (nat! net)); (l', showBalances l')
     | ["peer", i, h] => let l' := step l (.peerClaim (nat! i) (nat! h)); (l', showBalances l')
     | ["block", h] => let l' := step l (.block (nat! h)); (l', showBalances l')
+    | ["block", h, _tag] => let l' := step l (.block (nat! h)); (l', showBalances l')
     | ["totals"] => (l, s!"{balanceTotal l} {spendableTotal l} {feesTotal l} {lostTotal l} {entitlement l}")
     | _ => (l, "bad-op")
 
